@@ -807,7 +807,9 @@ class Kont:
 class _Prim(_NoReplay):
     def p_dual(self):
         self.p, self.dp = real("p"), real("dp")
-        engine().assume(z3.And(self.p.e > 0, self.p.e < 1))
+        # every probability, INCLUDING the end points 0 and 1 (a saturated probability is a legitimate argument: the
+        # enumeration / measure-valued identities are polynomial in p and hold on the closed interval)
+        engine().assume(z3.And(self.p.e >= 0, self.p.e <= 1))
         return (Dual(self.p, self.dp),)
 
 
